@@ -97,8 +97,10 @@ def blurring_rule(ctx, p, K):
     cs = wire.calls_to(p, g, f.key)
     got = {k: norm_text(wire.strip_np_array(v)) for k, v in wire.kw(cs[0], f).items()} if len(cs) == 1 else {}
     rets = wire.returns_of(g)
-    rk = {k: norm_text(v) for k, v in wire.kw(rets[0].value).items()} if rets and isinstance(rets[0].value, ast.Call) else {}
-    ok = got == {"mask_2d": "self.mask", "kernel_shape_native": "kernel_shape_native"} and rk == {"mask": "blurring_mask", "pixel_scales": "self.mask.pixel_scales", "origin": "self.mask.origin"}
+    rkv = wire.kw(rets[0].value) if rets and isinstance(rets[0].value, ast.Call) else {}
+    rk = {k: norm_text(v) for k, v in rkv.items()}
+    ok = got == {"mask_2d": "self.mask", "kernel_shape_native": "kernel_shape_native"} and len(cs) == 1 and set(rk) == {"mask", "pixel_scales", "origin"} and wire.is_value_of(g, rkv["mask"], cs[0]) \
+        and (rk["pixel_scales"], rk["origin"]) == ("self.mask.pixel_scales", "self.mask.origin")
     ctx.ob(rule, g.key, ok, where=g, node=cs[0] if cs else g.node, construct=f"{got} -> {rk}", message="blurring_from must dilate self.mask with the given kernel shape and return a mask with the parent's pixel scales and origin")
 
 
@@ -343,11 +345,9 @@ def views_rule(ctx, p):
         m = dg.lookup(name)
         if m is None:
             raise AnchorMissing(f"DeriveGrid2D.{name}")
-        asg = [n for n in m.body_nodes() if isinstance(n, ast.Assign) and isinstance(n.value, ast.Subscript)]
-        ok = len(asg) == 1 and norm_text(asg[0].value.value) == "self.unmasked" and norm_text(asg[0].value.slice) == f"self.mask.derive_indexes.{src}"
         rets = wire.returns_of(m)
-        rk = {k: norm_text(v) for k, v in wire.kw(rets[0].value).items()} if rets and isinstance(rets[0].value, ast.Call) else {}
-        ok = ok and rk == {"values": asg[0].targets[0].id if asg else None, "mask": f"self.mask.derive_mask.{name}"}
+        rk = wire.kwr(m, rets[0].value) if len(rets) == 1 and isinstance(rets[0].value, ast.Call) else {}   # name-free
+        ok = rk == {"values": f"self.unmasked[self.mask.derive_indexes.{src}]", "mask": f"self.mask.derive_mask.{name}"}
         ctx.ob(rule, f"{dg.key}.{name}", ok, where=m, node=m.node, construct=str(rk), message=f"the {name} grid must be the unmasked grid indexed by {src}, on the {name} mask")
 
 
